@@ -406,7 +406,7 @@ CHECKS = {
 }
 
 NOT_APPLICABLE = {
- "C20": "fork/exec/pidfd/wait: kernel and child-process behaviour (DESIGN.md §1, end)",
+ "C20": "what the property is about — the kernel delivering everything a child wrote to its pipes, stdin reaching it, the real exit status exactly once — is kernel and child-process behaviour behind fork/exec/pidfd/wait; compio-process itself contributes only `join3(child_wait, read_to_end(stdout), read_to_end(stderr))` (a third-party combinator over pipe reads that are ordinary driver operations: C01/C08/C11 cover those pieces), nothing a bounded symbolic execution of in-repo code could decide (DESIGN.md §1, end)",
 }
 
 PENDING = {}  # filled below for properties whose check is still under construction
